@@ -428,3 +428,70 @@ have tr1 : ∑ a ∈ Finset.Ico (0:ℤ) N, n1 a a = 0 := by
     exact hn1 a a ha'.1 ha'.2 ha'.1 ha'.2
   rw [Finset.sum_congr rfl e, Finset.sum_add_distrib, ← Finset.mul_sum, hAt, hTt]; simp
 """ + _STEP2)
+
+
+# ---- operator form of the Redfield/Lindblad generator acts as its four-index tensor ---------------------------------------
+OP_FORM = ("forall((a, b), (range(0, N), range(0, N)), O[a,b] == Sum(m, range(0, Nb), "
+           "Sum(k, range(0, N), K[m,a,k]*Sum(l, range(0, N), r[k,l]*Ld[m,l,b])) "
+           "+ Sum(k, range(0, N), L[m,a,k]*Sum(l, range(0, N), r[k,l]*K[m,b,l])) "
+           "- Sum(k, range(0, N), Sum(l, range(0, N), K[m,l,a]*L[m,l,k])*r[k,b]) "
+           "- Sum(k, range(0, N), r[a,k]*Sum(l, range(0, N), Ld[m,k,l]*K[m,l,b]))))")
+lemma("operator_equals_tensor",
+      types=dict(REL_TYPES, r="carr2", O="carr2"),
+      hyps=[("hR", REL_FORM), ("hO", OP_FORM)],
+      concl="forall((a, b), (range(0, N), range(0, N)), O[a,b] == Sum(c, range(0, N), Sum(d, range(0, N), R[a,b,c,d]*r[c,d])))",
+      proof="""
+intro a b ha0 haN hb0 hbN
+have ha : a ∈ Finset.Ico (0:ℤ) N := Finset.mem_Ico.mpr ⟨ha0, haN⟩
+have hb : b ∈ Finset.Ico (0:ℤ) N := Finset.mem_Ico.mpr ⟨hb0, hbN⟩
+rw [hO a b ha0 haN hb0 hbN]
+let f : ℤ → ℤ → ℤ → ℂ := fun m c d => (K m a c * Ld m d b + L m a c * K m b d
+      - (if b = d then ∑ k ∈ Finset.Ico (0:ℤ) N, K m k a * L m k c else 0)
+      - (if a = c then ∑ k ∈ Finset.Ico (0:ℤ) N, Ld m d k * K m k b else 0)) * r c d
+have eR : ∀ c ∈ Finset.Ico (0:ℤ) N, ∀ d ∈ Finset.Ico (0:ℤ) N, R a b c d * r c d
+    = ∑ m ∈ Finset.Ico (0:ℤ) Nb, f m c d := by
+  intro c hc d hd
+  have hc' := Finset.mem_Ico.mp hc
+  have hd' := Finset.mem_Ico.mp hd
+  rw [hR a b c d ha0 haN hb0 hbN hc'.1 hc'.2 hd'.1 hd'.2, Finset.sum_mul]
+have e2 : ∑ c ∈ Finset.Ico (0:ℤ) N, ∑ d ∈ Finset.Ico (0:ℤ) N, R a b c d * r c d
+    = ∑ c ∈ Finset.Ico (0:ℤ) N, ∑ d ∈ Finset.Ico (0:ℤ) N, ∑ m ∈ Finset.Ico (0:ℤ) Nb, f m c d := by
+  apply Finset.sum_congr rfl; intro c hc
+  apply Finset.sum_congr rfl; intro d hd
+  exact eR c hc d hd
+have e3 : ∑ c ∈ Finset.Ico (0:ℤ) N, ∑ d ∈ Finset.Ico (0:ℤ) N, ∑ m ∈ Finset.Ico (0:ℤ) Nb, f m c d
+    = ∑ m ∈ Finset.Ico (0:ℤ) Nb, ∑ c ∈ Finset.Ico (0:ℤ) N, ∑ d ∈ Finset.Ico (0:ℤ) N, f m c d := by
+  calc ∑ c ∈ Finset.Ico (0:ℤ) N, ∑ d ∈ Finset.Ico (0:ℤ) N, ∑ m ∈ Finset.Ico (0:ℤ) Nb, f m c d
+      = ∑ c ∈ Finset.Ico (0:ℤ) N, ∑ m ∈ Finset.Ico (0:ℤ) Nb, ∑ d ∈ Finset.Ico (0:ℤ) N, f m c d := by
+        apply Finset.sum_congr rfl; intro c _; exact Finset.sum_comm
+    _ = ∑ m ∈ Finset.Ico (0:ℤ) Nb, ∑ c ∈ Finset.Ico (0:ℤ) N, ∑ d ∈ Finset.Ico (0:ℤ) N, f m c d := Finset.sum_comm
+rw [e2, e3]
+apply Finset.sum_congr rfl
+intro m _
+have t1 : ∑ c ∈ Finset.Ico (0:ℤ) N, ∑ d ∈ Finset.Ico (0:ℤ) N, K m a c * Ld m d b * r c d
+    = ∑ k ∈ Finset.Ico (0:ℤ) N, K m a k * ∑ l ∈ Finset.Ico (0:ℤ) N, r k l * Ld m l b := by
+  apply Finset.sum_congr rfl; intro c _
+  rw [Finset.mul_sum]; apply Finset.sum_congr rfl; intro d _; ring
+have t2 : ∑ c ∈ Finset.Ico (0:ℤ) N, ∑ d ∈ Finset.Ico (0:ℤ) N, L m a c * K m b d * r c d
+    = ∑ k ∈ Finset.Ico (0:ℤ) N, L m a k * ∑ l ∈ Finset.Ico (0:ℤ) N, r k l * K m b l := by
+  apply Finset.sum_congr rfl; intro c _
+  rw [Finset.mul_sum]; apply Finset.sum_congr rfl; intro d _; ring
+have t3 : ∑ c ∈ Finset.Ico (0:ℤ) N, ∑ d ∈ Finset.Ico (0:ℤ) N, (if b = d then ∑ k ∈ Finset.Ico (0:ℤ) N, K m k a * L m k c else 0) * r c d
+    = ∑ k ∈ Finset.Ico (0:ℤ) N, (∑ l ∈ Finset.Ico (0:ℤ) N, K m l a * L m l k) * r k b := by
+  apply Finset.sum_congr rfl; intro c _
+  simp only [ite_mul, zero_mul]
+  rw [Finset.sum_ite_eq (Finset.Ico (0:ℤ) N) b]
+  simp [hb]
+have t4 : ∑ c ∈ Finset.Ico (0:ℤ) N, ∑ d ∈ Finset.Ico (0:ℤ) N, (if a = c then ∑ k ∈ Finset.Ico (0:ℤ) N, Ld m d k * K m k b else 0) * r c d
+    = ∑ k ∈ Finset.Ico (0:ℤ) N, r a k * ∑ l ∈ Finset.Ico (0:ℤ) N, Ld m k l * K m l b := by
+  simp only [ite_mul, zero_mul]
+  have : ∀ c ∈ Finset.Ico (0:ℤ) N, (∑ d ∈ Finset.Ico (0:ℤ) N, if a = c then (∑ k ∈ Finset.Ico (0:ℤ) N, Ld m d k * K m k b) * r c d else 0)
+      = if a = c then ∑ d ∈ Finset.Ico (0:ℤ) N, (∑ k ∈ Finset.Ico (0:ℤ) N, Ld m d k * K m k b) * r c d else 0 := by
+    intro c _
+    split_ifs <;> simp
+  rw [Finset.sum_congr rfl this, Finset.sum_ite_eq (Finset.Ico (0:ℤ) N) a]
+  simp only [ha, if_true]
+  apply Finset.sum_congr rfl; intro d _; ring
+simp only [f, sub_mul, add_mul, Finset.sum_sub_distrib, Finset.sum_add_distrib]
+rw [t1, t2, t3, t4]
+""")
